@@ -635,9 +635,18 @@ def evaluate_payload_template(input, context, template):
 
 
         # Extract intrinsic name and normalise it to asl_intrinsic_<name>
+        if not (isinstance(intrinsic, str) and "(" in intrinsic and
+                intrinsic.rstrip().endswith(")")):
+            raise IntrinsicFailure(
+                "{} is not an Intrinsic Function call.".format(intrinsic)
+            )
         func, args = intrinsic.split("(", 1)
         func = func.strip()
-        normalised_func = func.replace("States.", "asl_intrinsic_")
+        if not func.startswith("States."):
+            raise IntrinsicFailure(
+                "Intrinsic Function {} is not supported.".format(func)
+            )
+        normalised_func = "asl_intrinsic_" + func[len("States."):]
         # Extract raw args string
         args = args.rsplit(")", 1)[0]
 
@@ -657,12 +666,48 @@ def evaluate_payload_template(input, context, template):
         match here so if we have an invalid number like f123.45 it would match
         but subsequent evaluation would raise an IntrinsicFailure which we want.
         """
-        arglist = re.findall('\'.*?(?<!\\\\)\'|States.*?\\)|[^\\s*,]+', args)
+        arglist = []
+        current = ""
+        depth = 0
+        in_string = False
+        i = 0
+        while i < len(args):
+            c = args[i]
+            if in_string:
+                current += c
+                if c == "\\" and i + 1 < len(args):
+                    i += 1
+                    current += args[i]
+                elif c == "'":
+                    in_string = False
+            elif c == "'":
+                in_string = True
+                current += c
+            elif c == "," and depth == 0:
+                arglist.append(current.strip())
+                current = ""
+            else:
+                if c == "(":
+                    depth += 1
+                elif c == ")":
+                    depth -= 1
+                current += c
+            i += 1
+        if in_string or depth != 0:
+            raise IntrinsicFailure(
+                "Intrinsic Function {}, unbalanced arguments {}.".format(func, args)
+            )
+        if arglist or current.strip():
+            arglist.append(current.strip())
 
         # Evaluate the arguments
         for i, arg in enumerate(arglist):
             if arg.startswith("'"):  # It's an apostrophe delimited string
-                arglist[i] = arg.strip("'")
+                if len(arg) < 2 or not arg.endswith("'"):
+                    raise IntrinsicFailure(
+                        "Intrinsic Function {}, Invalid argument {}.".format(func, arg)
+                    )
+                arglist[i] = arg[1:-1].replace("\\'", "'")
             elif arg.startswith("$"):  # It's a path
                 arglist[i] = apply_path(input, context, arg)
             elif arg.startswith("States."):  # It's a nested intrinsic function
